@@ -270,6 +270,7 @@ fn judge(prop: &str, rep: &mut Report, ops: &[&OpDef], mixed: bool, out: &Outcom
     };
     if let Some(blocked) = &out.deadlock {
         rep.count("schedules_ending_in_deadlock", 1);
+        rep.name_in("tuples_with_a_deadlocking_schedule", &pair);
         if prop == "C15" {
             let sig = deadlock_signature(blocked);
             rep.violation("deadlock", &format!("C15:deadlock:{sig}"), &format!("{pair} [{schedule_desc}]: no thread can make progress: {}", describe_deadlock(blocked)), replay());
@@ -411,6 +412,33 @@ pub fn run(prop: &str, rep: &mut Report, tier: &str) {
     crate::report::run_worker_processes(rep, &["sched-worker".to_string(), prop.to_string(), tier.to_string(), rep.seed.to_string()], shards, if tier == "thorough" { 7000 } else { 900 });
     rep.extra.insert("operations".into(), J::arr_of_str(cat.iter().map(|o| o.name.to_string())));
     rep.sample(J::obj().with("tuple", J::s("pkg_a.set_comment || root.serialize")).with("note", J::s("each schedule is identified by its choice list (see replays)")));
+    if tier == "thorough" && prop == "C15" {
+        // sanitizer add-on: free-running threads on the real locks under Miri (data races, UB in the lock / Arc / smallvec code); only
+        // pairs for which the exploration above found no deadlocking schedule, so that a deadlock reported by Miri is news
+        let dead = rep.names.get("tuples_with_a_deadlocking_schedule").cloned().unwrap_or_default();
+        let mut pairs = Vec::new();
+        for i in 0..cat.len() {
+            for j in (i + 1)..cat.len() {
+                if (cat[i].writer || cat[j].writer) && !dead.contains(&format!("{} || {}", cat[i].name, cat[j].name)) && !dead.iter().any(|d| d.contains(cat[i].name) && d.contains(cat[j].name)) {
+                    pairs.push((cat[i].name, cat[j].name));
+                }
+            }
+        }
+        let mut rng = Rng::derive(rep.seed, "san-threads", 0);
+        rng.shuffle(&mut pairs);
+        rep.count("miri.threads.candidate_pairs_without_deadlock", pairs.len() as u64);
+        let jobs: Vec<crate::san::Job> = pairs
+            .iter()
+            .take(16)
+            .enumerate()
+            .map(|(k, (a, b))| crate::san::Job {
+                part: "threads",
+                seed: rep.seed + k as u64,
+                args: vec![(*a).to_string(), (*b).to_string()],
+            })
+            .collect();
+        crate::san::miri_addon(rep, jobs);
+    }
     rep.require("operation_tuples", 300);
     rep.require("schedules_with_interleaving", 2000);
     rep.require("schedules_completed", 2000);
